@@ -718,6 +718,13 @@ func (g *Gen) intents() []intent {
 	add(1, func() []SymStep {
 		s := g.req(g.browser(), "POST", pickS(g.rng, "Login", "Register", "RecoverStart", "RecoverEnd"), nil)
 		s.Req.BadBody = true
+		if g.rng.Intn(3) != 0 {
+			// a body that does not decode - and that carries real credentials all the same (in API mode: well-formed
+			// JSON with one non-string value): wherever the decoding error ends up, the fields are not in it
+			u := g.known()
+			s.Req.Route = pickS(g.rng, "Login", "Login", "Register", "OtpLogin", "TotpValidate")
+			s.Req.Form = []KV{{g.pidField(), Desc{K: "pid", U: u}}, {"password", Desc{K: "pw", U: u}}, {"code", Desc{K: "totp", U: u}}}
+		}
 		return one(s)
 	})
 	add(2, func() []SymStep {
@@ -1562,6 +1569,12 @@ func (g *Gen) scenarios() []intent {
 				}
 			}
 			out = append(out, end(exactTok))
+			if c.has("logout") && g.rng.Intn(3) == 0 {
+				// the authorisation is in the session, the enrolment is abandoned, the browser logs out: nothing of it
+				// is left for whoever logs in next
+				v := g.known()
+				return append(out, g.req(b, c.LogoutMethod, "Logout", nil), g.loginStep(b, v, Desc{K: "pw", U: v}, false))
+			}
 			enrol := func() []SymStep {
 				if kind == "totp" {
 					return []SymStep{g.req(b, "POST", "TotpSetup", nil), g.req(b, "POST", "TotpConfirm", []KV{{"code", Desc{K: "totpsess", B: b}}})}
